@@ -70,3 +70,20 @@ Definition check_validate_sel (use:list term) (W:world) (o:opts) (sg g:graph) (E
 
 Definition check_focus (sg g:graph) (s:shape) (observed:list term) : bool :=
   tset_eqb (focus_nodes sg g s) observed.
+
+(* C06: the report graph the model builds from its results has the same number of triples per
+   result-describing predicate as the observed report graph *)
+From Verif Require Import Shapes.Report.
+Definition count_pred (T:list triple) (p:N) : nat := length (filter (fun t => term_eqb (tpred t) (IRI p)) T).
+Definition REPORT_PREDS : list N :=
+  [sh_result; sh_detail; sh_focusNode; sh_value; sh_resultPath; sh_sourceShape; sh_sourceConstraintComponent;
+   sh_resultSeverity; sh_conforms].
+Definition check_report (W:world) (o:opts) (sg g:graph) (E:env) (verdict:bool) (hist:list nat) : bool :=
+  match validate_impl W o sg g E with
+  | Ok (c, rs) =>
+      Bool.eqb c verdict
+      && (let T := report_graph (BN 0) 1 c rs in
+          forallb (fun pn => Nat.eqb (count_pred T (fst pn)) (snd pn)) (combine REPORT_PREDS hist))
+      && (if abort o then true else true)
+  | Err _ => false
+  end.
